@@ -228,6 +228,9 @@ func identName(d *ssa.DebugRef) string {
 
 func (e *enc) loopEnv(fr *frame, h *ssa.BasicBlock, phiVals map[*ssa.Phi]Term, mem map[string]Term) *specEnv {
 	env := e.fnEnv(fr, mem)
+	if ls := fr.loops[h]; ls != nil {
+		env.visited = ls.visCur
+	}
 	env.locals = func(name string) (tval, bool) { return e.lookupLocal(fr, h, phiVals, mem, name) }
 	env.hash = func(name string) (Term, bool) {
 		if strings.HasPrefix(name, "i") && len(name) > 1 {
@@ -597,8 +600,12 @@ func (e *enc) rangeNext(b *ssa.BasicBlock, x *ssa.Next) {
 	}
 	ks, vs := e.so.of(st.mt.Key()), e.so.of(st.mt.Elem())
 	k := e.fresh("rk", ks)
+	st.curKey = k
 	// visited set: havoced at the header (it is a loop-carried ghost)
-	vis := e.fresh("visited", fmt.Sprintf("(Array %s Bool)", ks))
+	vis := st.visited
+	if vis == "" {
+		vis = e.fresh("visited", fmt.Sprintf("(Array %s Bool)", ks))
+	}
 	e.assume(fmt.Sprintf("(forall ((x %s)) (! (=> (select %s x) (select %s x)) :pattern ((select %s x))))", ks, vis, st.dom0, vis))
 	e.assume(fmt.Sprintf("(=> %s (and (select %s %s) (not (select %s %s))))", more, st.dom0, k, vis, k))
 	e.assume(fmt.Sprintf("(=> (not %s) (forall ((x %s)) (! (=> (select %s x) (select %s x)) :pattern ((select %s x)))))", more, ks, st.dom0, vis, st.dom0))
